@@ -18,12 +18,16 @@ from __future__ import annotations
 
 import datetime as _dtm
 import fractions
+import sys as _sys
 import math
 import time as _time
 import traceback
 import zlib
 
 import z3
+
+if hasattr(_sys, "set_int_max_str_digits"):
+    _sys.set_int_max_str_digits(0)  # z3 models may contain very long rationals
 
 EPOCH = _dtm.datetime(1970, 1, 1)
 US = _dtm.timedelta(microseconds=1)
@@ -154,10 +158,13 @@ def _time_term(us_term_or_val):
 # SymBool
 # --------------------------------------------------------------------------
 class SymBool:
-    __slots__ = ("t",)
+    __slots__ = ("t", "robust")
 
-    def __init__(self, t):
+    def __init__(self, t, robust=None):
         self.t = t
+        # for equalities of real terms: (lhs, rhs); lets check() look for a counterexample whose difference is
+        # large enough to survive float arithmetic in the concrete replay
+        self.robust = robust
 
     def __bool__(self):
         return _ctx().branch(self.t)
@@ -1072,7 +1079,7 @@ class Ctx:
                 self.n_unknown += 1
                 self.unknown_labels.append(label)
                 return True
-            m = s2.model()
+            m = self._robust_model(cond) or s2.model()
             self.violations.append(
                 Violation(label, self._inputs_from(m), detail, self.decisions)
             )
@@ -1090,6 +1097,7 @@ class Ctx:
         if r == z3.sat:
             m = self.solver.model()
             self.solver.pop()
+            m = self._robust_model(cond) or m
             self.violations.append(
                 Violation(label, self._inputs_from(m), detail, self.decisions)
             )
@@ -1110,6 +1118,27 @@ class Ctx:
         self.n_discharged += 1
         return True
 
+    def _robust_model(self, cond, base_assertions=None):
+        """A counterexample whose real-valued difference is visible in float arithmetic, if one exists."""
+        rob = getattr(cond, "robust", None)
+        if rob is None:
+            return None
+        a, b = rob
+        a = z3.ToReal(a) if z3.is_int(a) else a
+        b = z3.ToReal(b) if z3.is_int(b) else b
+        s2 = z3.Solver()
+        s2.set("timeout", min(self.qtimeout, 8000))
+        s2.add(self.solver.assertions() if base_assertions is None else base_assertions)
+        s2.add(z3.Or(a - b >= 1, b - a >= 1), a <= 10**6, a >= -10**6, b <= 10**6, b >= -10**6)
+        for _n, kind, term in self.decl:
+            if kind == "real":
+                s2.add(term <= 10**4, term >= -10**4)
+        t0 = _time.perf_counter()
+        r = s2.check()
+        self.solver_s += _time.perf_counter() - t0
+        self.n_queries += 1
+        return s2.model() if r == z3.sat else None
+
     def fail(self, label, detail=None):
         """Unconditional violation on this (feasible) path."""
         self.n_oblig += 1
@@ -1123,7 +1152,9 @@ class Ctx:
         """Equality usable in both modes (tolerant for floats in concrete mode)."""
         if self.concrete:
             return _concrete_eq(a, b, tol)
-        return SymBool(term_of(a) == term_of(b))
+        ta, tb = term_of(a), term_of(b)
+        rob = (ta, tb) if (z3.is_real(ta) or z3.is_real(tb)) else None
+        return SymBool(ta == tb, robust=rob)
 
     def _inputs_from(self, model):
         out = {}
